@@ -42,6 +42,7 @@ UNKNOWN = "Zq"
 _IDENT = re.compile(r"[A-Za-z_][A-Za-z0-9_]*")
 _RESERVED = {"true", "false", "yes", "no", "on", "off", "null", "y", "n", "True", "False", "Yes", "No", "On", "Off",
              "Null", "NULL", "TRUE", "FALSE", "YES", "NO", "ON", "OFF", "_"}
+_PLAIN_SENSITIVE = {"y", "n", "yes", "no", "on", "off", "null", "true", "false", "nan", "inf"}   # given QUOTED in a source text
 FLAG_KEYS = ("fixed", "hard", "flip", "terminal")
 
 
@@ -120,7 +121,7 @@ def _scalar(v) -> str:
     if isinstance(v, float):
         return repr(v)
     if isinstance(v, str):
-        if _IDENT.fullmatch(v) and v not in _RESERVED:
+        if _IDENT.fullmatch(v) and v not in _RESERVED and v.lower() not in _PLAIN_SENSITIVE:
             return v
         return json.dumps(v)
     raise MachineryError(f"cannot render {v!r}")
@@ -414,11 +415,20 @@ def file_round_trip(n1, emb) -> list:
 
 
 # ------------------------------------------------------------------------------------------------ random documents
-_REGIONS = [GROUND, "dsp", "bram", "lut"]
+_REGIONS = [GROUND, "dsp", "bram", "lut", "yes", "Off", "n"]
 _WEIGHTS = [[], [], [1, 1], [2, 1], [3, 1], [5, 1], [1, 2], [5, 2], [3, 4]]
 
 
+# legal identifiers that some YAML flavour reads as something else when written plain (booleans of YAML 1.1, null, numbers)
+_SENSITIVE = ["y", "Y", "n", "N", "yes", "Yes", "NO", "on", "On", "OFF", "off", "null", "Null", "true", "False", "e1", "E", "S", "W", "nan", "inf"]
+
+
 def _rand_name(rng: random.Random, used: set) -> str:
+    if rng.random() < 0.15:
+        nm = rng.choice(_SENSITIVE)
+        if nm not in used:
+            used.add(nm)
+            return nm
     while True:
         nm = rng.choice(["M", "blk_", "_x", "Q", "core", "u", "IO_"]) + str(rng.randrange(100))
         if rng.random() < 0.2:
